@@ -23,6 +23,9 @@ func ruleC05(w *World) {
 	if a == nil {
 		return
 	}
+	// R5: every point stored in a public-key object comes from a G2-closed producer
+	w.floor("C05.R5", 8)
+	w.ruleG2Provenance("C05.R5", a)
 	// BLS public key decoder: located by role = decodePublicKey of the signer implementation returning the BLS key type
 	var blsAlgo, ecAlgo *types.Named
 	for _, t := range w.implementors(rootPath, "signer", rootPath) {
